@@ -165,7 +165,7 @@ func compareRef(res *result, tally *neTally, c c07case, got []int, filt string, 
 	}
 }
 
-func checkC07Case(res *result, tally *neTally, sel *e2eSel, idx int64, raw []byte, seed int64, variants int) {
+func checkC07Case(res *result, tally *neTally, sel *e2eSel, idx int64, raw []byte, seed int64, variants, lawEvery int) {
 	var c c07case
 	if err := json.Unmarshal(raw, &c); err != nil || !c.normalize() {
 		res.count("bad_lines", 1)
@@ -222,7 +222,12 @@ func checkC07Case(res *result, tally *neTally, sel *e2eSel, idx int64, raw []byt
 			}
 			res.count("evaluations", nMaps)
 		}
-		// metamorphic laws, implementation against implementation
+		// metamorphic laws, implementation against implementation (on every AST,
+		// or - three-leaf ASTs of the exhaustive tier - on every lawEvery-th)
+		if lawEvery > 1 && leaves == 3 && hash64([]byte(fmt.Sprintf("law/%d/%d", seed, idx)))%uint64(lawEvery) != 0 {
+			continue
+		}
+		res.count("asts_with_law_checks", 1)
 		laws := []struct {
 			name string
 			g    AST
@@ -312,12 +317,12 @@ func kindOfErr(o outcome, err error) string {
 	return "error"
 }
 
-func runC07(in, out string, seed int64, workers, variants, e2e, e2eGroup int, scratch string) error {
+func runC07(in, out string, seed int64, workers, variants, e2e, e2eGroup, lawEvery int, scratch string) error {
 	res := newResult("c07", seed)
 	tally := &neTally{}
 	sel := &e2eSel{n: e2e}
 	err := readCases(in, workers, func(idx int64, raw []byte) {
-		checkC07Case(res, tally, sel, idx, raw, seed, variants)
+		checkC07Case(res, tally, sel, idx, raw, seed, variants, lawEvery)
 	})
 	if err != nil {
 		return err
@@ -379,6 +384,10 @@ func runC07E2E(res *result, tally *neTally, sel *e2eSel, seed int64, group int, 
 	for _, p := range sel.list {
 		rng := caseRng(seed, p.idx, 991)
 		v := pickVocab(rng, true)
+		if len(renderAST(concretize(p.c.F, v), ropts{Minus: 1, WS: 2}, rng)) > 256 {
+			res.count("e2e_skipped_longer_than_256_bytes", 1)
+			continue
+		}
 		key := jsonStr(v)
 		g := open[key]
 		if g == nil || len(g.picks) >= group {
@@ -387,8 +396,12 @@ func runC07E2E(res *result, tally *neTally, sel *e2eSel, seed int64, group int, 
 			all = append(all, g)
 		}
 		o := pickOpts(rng)
+		txt := renderAST(concretize(p.c.F, v), o, rng)
+		if len(txt) > 256 { // Pub/Sub documents a 256 byte limit for filters: use the tightest spelling
+			txt = renderAST(concretize(p.c.F, v), ropts{Minus: 1, WS: 2}, rng)
+		}
 		g.picks = append(g.picks, p)
-		g.strs = append(g.strs, renderAST(concretize(p.c.F, v), o, rng))
+		g.strs = append(g.strs, txt)
 	}
 	var jobs []grpcJob
 	byID := map[int]*grp{}
